@@ -219,7 +219,7 @@ func (q *Cut) Run() *Witness {
 			for _, b := range q.StartBlocks {
 				if b.Parent() == fn {
 					placed[b] = true
-					push(state{p: pt{b, 0}, fr: fr}, -1)
+					push(state{p: pt{b, 0}, fr: fr, env: q.domEnv(b)}, -1)
 				}
 			}
 			if q.NoInline || depth >= 2 {
@@ -251,7 +251,7 @@ func (q *Cut) Run() *Witness {
 			for _, b := range fn.Blocks {
 				for i, in := range b.Instrs {
 					if q.Start(in) {
-						push(state{p: pt{b, i + 1}, fr: fr}, -1)
+						push(state{p: pt{b, i + 1}, fr: fr, env: q.domEnv(b)}, -1)
 					}
 					if cl, ok := in.(*ssa.Call); ok && !q.NoInline && depth < 2 {
 						if g := inlineable(root, cl, inlMemo); g != nil {
@@ -405,7 +405,112 @@ func (q *Cut) flagEnv(env string, from, to *ssa.BasicBlock) string {
 			m[k] = v
 		}
 	}
+	// the branch condition just decided: a later branch on the very same SSA value takes the same edge
+	if len(from.Instrs) > 0 {
+		if ifi, ok := from.Instrs[len(from.Instrs)-1].(*ssa.If); ok && len(from.Succs) == 2 && from.Succs[0] != from.Succs[1] {
+			cond, pol := ifi.Cond, from.Succs[0] == to
+			for {
+				u, ok := cond.(*ssa.UnOp)
+				if !ok || u.Op != token.NOT {
+					break
+				}
+				cond, pol = u.X, !pol
+			}
+			if _, isPhi := cond.(*ssa.Phi); !isPhi && repeatedCond(cond) {
+				if pol {
+					m[condName(cond)] = 1
+				} else {
+					m[condName(cond)] = -1
+				}
+			}
+		}
+	}
+	// values defined in the block being entered are recomputed: forget what was known about their previous instance
+	prefix := fmt.Sprintf("v.%s.%d.", to.Parent().Name(), to.Index)
+	for k := range m {
+		if strings.HasPrefix(k, prefix) {
+			delete(m, k)
+		}
+	}
 	return formatFlagEnv(m)
+}
+
+// domEnv: what the branches that dominate block b (single-predecessor edges on its dominator chain) say about
+// repeated conditions — the knowledge a path starting inside b already has.
+func (q *Cut) domEnv(b *ssa.BasicBlock) string {
+	if !q.TrackFlags {
+		return ""
+	}
+	m := map[string]int{}
+	for d := b; d != nil && d.Idom() != nil; d = d.Idom() {
+		id := d.Idom()
+		if len(d.Preds) != 1 || d.Preds[0] != id || len(id.Instrs) == 0 {
+			continue
+		}
+		ifi, ok := id.Instrs[len(id.Instrs)-1].(*ssa.If)
+		if !ok || len(id.Succs) != 2 || id.Succs[0] == id.Succs[1] {
+			continue
+		}
+		cond, pol := ifi.Cond, id.Succs[0] == d
+		for {
+			u, ok := cond.(*ssa.UnOp)
+			if !ok || u.Op != token.NOT {
+				break
+			}
+			cond, pol = u.X, !pol
+		}
+		if _, isPhi := cond.(*ssa.Phi); isPhi || !repeatedCond(cond) {
+			continue
+		}
+		if _, seen := m[condName(cond)]; seen {
+			continue
+		}
+		if pol {
+			m[condName(cond)] = 1
+		} else {
+			m[condName(cond)] = -1
+		}
+	}
+	return formatFlagEnv(m)
+}
+
+// condName names a branch condition value by its defining function, block and register.
+func condName(v ssa.Value) string {
+	in, ok := v.(ssa.Instruction)
+	if !ok || in.Block() == nil {
+		return "v.?.0." + v.Name()
+	}
+	return fmt.Sprintf("v.%s.%d.%s", in.Parent().Name(), in.Block().Index, v.Name())
+}
+
+var repeatedCondMemo = map[ssa.Value]bool{}
+
+// repeatedCond: the value is the (possibly negated) condition of at least two branches.
+func repeatedCond(v ssa.Value) bool {
+	if r, ok := repeatedCondMemo[v]; ok {
+		return r
+	}
+	n := 0
+	var count func(x ssa.Value, d int)
+	count = func(x ssa.Value, d int) {
+		rs := x.Referrers()
+		if rs == nil || d > 2 {
+			return
+		}
+		for _, r := range *rs {
+			switch y := r.(type) {
+			case *ssa.If:
+				n++
+			case *ssa.UnOp:
+				if y.Op == token.NOT {
+					count(y, d+1)
+				}
+			}
+		}
+	}
+	count(v, 0)
+	repeatedCondMemo[v] = n >= 2
+	return n >= 2
 }
 
 func flagName(ph *ssa.Phi) string {
@@ -460,11 +565,12 @@ func flagInfeasible(ifi *ssa.If, succ int, env string) bool {
 		}
 		break
 	}
-	ph, ok := cond.(*ssa.Phi)
-	if !ok {
-		return false
+	var v int
+	if ph, ok := cond.(*ssa.Phi); ok {
+		v = parseFlagEnv(env)[flagName(ph)]
+	} else {
+		v = parseFlagEnv(env)[condName(cond)]
 	}
-	v := parseFlagEnv(env)[flagName(ph)]
 	if v == 0 {
 		return false
 	}
